@@ -210,7 +210,8 @@ class Prefixed(BaseModel):
         return hash(self.scale(Prefix.UNIT).number)
 
     def __int__(self) -> int:
-        return int(self.number) * 10**self.prefix.value
+        """Convert to int: the integer part of the value"""
+        return int(self.scale(Prefix.UNIT).number)
 
     def __float__(self) -> float:
         """Convert to float"""
